@@ -269,6 +269,7 @@ pub enum ObsEv {
     Applied { keys: Vec<u64> },
     CostUpdate { key: u64, prev: i64, cost: i64 },
     PolicyCleared,
+    TickTaken { due_ns: u64 },
 }
 
 #[derive(Serialize, Deserialize, Clone, Debug)]
@@ -316,6 +317,7 @@ fn obs_sink(o: Obs) {
         Obs::Applied { keys } => ObsEv::Applied { keys },
         Obs::CostUpdate { key, prev, cost } => ObsEv::CostUpdate { key, prev, cost },
         Obs::PolicyCleared => ObsEv::PolicyCleared,
+        Obs::TickTaken { due_ns } => ObsEv::TickTaken { due_ns },
     };
     log(EvKind::Obs(e));
 }
@@ -957,6 +959,7 @@ struct Shared {
 /// The body of task 0.
 pub fn run_plan(plan: &Plan) {
     stretto_sim_rt::obs::set_sink(Box::new(obs_sink));
+    stretto_sim_rt::obs::TICK_EVENTS.store(plan.has_tag("tick_events"), Ordering::SeqCst);
     *SNAP_CTX.lock().unwrap_or_else(|e| e.into_inner()) = if plan.has_tag("snap_at_wait") { Some((plan.universe.clone(), plan.cfg.keys.clone())) } else { None };
     let kb = HKb(plan.cfg.keys.clone());
     let built = catch_unwind(AssertUnwindSafe(|| build(&plan.cfg)));
